@@ -52,6 +52,37 @@ def run(ctx, replay_case):
         if problem and len([v for v in ctx.violations if v.get("signature") == "obj:" + problem.split(":")[0][:40]]) < 2:
             ctx.violations.append({"kind": "concrete", "signature": "obj:" + problem.split(":")[0][:40], "what": problem,
                                    "replay": c.replay("S")})
+    # conversions applied late: one message per parameter class of every command code under an encrypting session (234 classes ask
+    # `TPMS_PARAMS.encrypted()` for their layout) is decoded first, and only then are the kept events turned into objects and back
+    # (seed C11f: a bounded cache forgets the synthesized class in between, so the rebuilt object is of another class of the same name)
+    late = []
+    for cc in M.ccs:
+        c_ = M.command(cc, nsess=1, decrypt=True)
+        if c_:
+            late.append(("Command", None, False, c_[1]))
+        r_ = M.response(cc, nsess=1, encrypt=True)
+        if r_:
+            late.append(("Response", cc, True, r_[1]))
+    lres = core.run_impl_fresh([("LATE", "S", late)])[0]
+    lbad = [l for l in lres if not l.endswith(" ok")]
+    stats["late_conversions"] = len(lres)
+    stats["late_conversion_failures"] = len(lbad)
+    if lbad:
+        i = int(lbad[0].split(" ")[1])
+        # shrink: the shortest prefix of the history that still fails for this message
+        lo, hi = i + 1, len(late)
+        while lo < hi:
+            mid = (lo + hi) // 2
+            r2 = core.run_impl_fresh([("LATE", "S", late[:mid])])[0]
+            if not r2[i].endswith(" ok"):
+                hi = mid
+            else:
+                lo = mid + 1
+        ctx.violations.append({"kind": "concrete", "signature": "obj:late:" + lbad[0].split(" ")[2],
+                               "what": f"after {lo} decodes in one process the object rebuilt from the kept events of decode #{i} does not convert back and forth "
+                                       f"without loss: {lbad[0][:120]} ({len(lbad)} of {len(lres)} messages affected)",
+                               "replay": {"history": [{"type": t, "command_code": cc, "parameter_encryption": enc, "hex": d.hex()} for t, cc, enc, d in late[:lo]],
+                                          "convert_after_all_decodes": i, "mode": "strict"}})
     # events_to_obj: model (Lean `e2oTop`: events -> nested dict -> object) vs implementation, on the events of strict and
     # warn-mode decodes of well-formed, bit-flipped and truncated inputs (partial event lists included)
     eops = []
